@@ -309,7 +309,11 @@ impl<T: Copy, H> RawUniqueVectorHandle<T, H> {
     assert!(mem::size_of::<T>() > 0, "ZSTs currently not supported");
 
     let new_layout = make_vector_layout::<H, T>(cap);
+    #[cfg(feature = "verif")]
+    let verif_managed = crate::verif::ManagedAlloc::enter();
     let buf = unsafe { alloc(new_layout) };
+    #[cfg(feature = "verif")]
+    drop(verif_managed);
 
     if buf.is_null() {
       handle_alloc_error(new_layout);
